@@ -164,7 +164,8 @@ def check_model(m, acc, mode, fam, k, only_alpha=None, only_ovr=None, only_form=
                         acc.violation(None, {"fam": fam, "k": k, "ast": m, "mode": "oob"},
                                       {"what": "a leaf value outside its declared bounds is not taken as given", "model": show(m), "assignment": al, "expected": want, "got": tuple(map(int, got))})
                         break
-    if mode == "plain" and only_alpha is None:
+    if mode == "plain" and only_alpha is None and (any(bd != (0, 1) for bd in leaves.values()) or k % 4 == 0):
+        # (every model with an integer leaf, every fourth boolean one)
         # the SAME object evaluated on every assignment in sequence, forwards and backwards (neighbouring assignments differ in one value, e.g.
         # -1 / -2): whatever the object remembers between calls must not change the answers
         shared, _ = bind(m)
